@@ -28,7 +28,16 @@ GROW = (
     "std::collections::hash::map::HashMap::insert",
     "alloc::collections::vec_deque::VecDeque::push_back",
 )
-CLEAR = ("alloc::vec::Vec::clear", "alloc::string::String::clear", "alloc::vec::Vec::truncate", "std::collections::hash::map::HashMap::clear")
+# any growing method of a std collection counts, whatever the collection (the list above is what the tree uses today)
+GROW_MODS = ("alloc::vec::", "alloc::string::", "alloc::collections::", "std::collections::", "hashbrown::")
+GROW_NAMES = ("push", "push_str", "push_back", "push_front", "insert", "insert_str", "extend", "extend_from_slice", "extend_from_within", "append", "resize", "resize_with", "entry", "get_or_insert_with", "replace", "push_within_capacity")
+
+
+def is_grow(cn):
+    return cn in GROW or (cn.startswith(GROW_MODS) and cn.rsplit("::", 1)[-1] in GROW_NAMES)
+
+
+CLEAR = ("alloc::vec::Vec::clear", "alloc::string::String::clear", "alloc::vec::Vec::truncate", "std::collections::hash::map::HashMap::clear", "std::collections::hash::set::HashSet::clear", "alloc::collections::vec_deque::VecDeque::clear", "alloc::collections::btree::map::BTreeMap::clear", "alloc::collections::btree::set::BTreeSet::clear")
 WHOLE_FILE = ("Parser::parse", "sat_solver_log::parse_log")
 
 
@@ -77,7 +86,7 @@ def run_r1(ctx, rule):
         ordn = {}
         for bb, t in fn.calls():
             cn = util.cname(t)
-            if cn not in GROW or not t["args"]:
+            if not is_grow(cn) or not t["args"]:
                 continue
             recv = strip_bb(sy.operand(t["args"][0]))
             rl = root_local(recv)
